@@ -185,15 +185,28 @@ def _diff(sa, sb, ha, hb):
 # (a) idempotence + frozen past + series end
 
 
+def _readout(t):
+    """every public property of every node, as plain data"""
+    out = {}
+    for path in node_paths(t):
+        for prop in prop_names(t.node(path)):
+            out[">".join(path) + "." + prop] = read(t, path, prop)
+    return out
+
+
 def _run_with_updates(spec, hist, j, k):
-    """history with k redundant root.update(now) inserted before position j; records the
-    rows of every date at the moment the clock leaves it."""
+    """history with k redundant root.update(now) inserted before position j (k == "reads": a read
+    of every public property of every node instead); records the rows of every date at the
+    moment the clock leaves it."""
     t = T.Tree(spec)
     frozen = {}
     for idx, op in enumerate(list(hist) + [None]):
         if idx == j:
-            for _ in range(k):
-                t.root.update(t.root.now)
+            if k == "reads":
+                _readout(t)
+            else:
+                for _ in range(k):
+                    t.root.update(t.root.now)
         if op is None:
             break
         if op[0] == "next":
@@ -212,6 +225,7 @@ def _is_strategy_child(spec, o):
 def idem_case(item):
     spec, hist = item[0], item[1]
     kmax = item[2] if len(item) > 2 else 3
+    reads_maxlen = item[3] if len(item) > 3 else 99
     viols = []
     nruns = 0
     for j in range(len(hist) + 1):
@@ -249,6 +263,21 @@ def idem_case(item):
             # (with no update at all the raw state still carries the pending flag: observables only)
             if (k1[0] != 0 and key != k1[1]) or not same(_plain(snap), _plain(k1[2])) or not same(_plain(hs), _plain(k1[3])):
                 viols.append({"rule": "update_not_idempotent", "expected": {"position": j, "updates": k1[0]}, "observed": {"updates": k, "diff": _diff(k1[2], snap, k1[3], hs)}, "where": {"j": j, "k": k}})
+        # a read of everything at the same place instead: whatever is read afterwards equals what is
+        # read after an explicit update there (a read leaves nothing behind that later reads can see)
+        if j < len(hist) and len(hist) <= reads_maxlen:
+            try:
+                ta, _ = _run_with_updates(spec, hist, j, 1)
+                tb, _ = _run_with_updates(spec, hist, j, "reads")
+                if ta is not None and tb is not None:
+                    nruns += 2
+                    ra, rb = _plain(_readout(ta)), _plain(_readout(tb))
+                    bad = sorted(k_ for k_ in ra if not same(ra[k_], rb.get(k_)))
+                    if bad:
+                        viols.append({"rule": "earlier_read_changes_later_reads", "expected": {"position": j, "equals": "the reads after an explicit update at that position", "first_difference": {bad[0]: _short(ra[bad[0]])}}, "observed": {bad[0]: _short(rb.get(bad[0]))}, "where": {"j": j, "k": "reads"}})
+            except Exception as e:
+                if rt.classify(e) != "guard":
+                    viols.append({"rule": "crash", "observed": rt.describe(e), "where": {"j": j, "k": "reads"}})
         # frozen past + series ends at now (on the k=1 run)
         k, key, snap, hs, frozen, now = k1
         for label, old in frozen.items():
@@ -346,7 +375,7 @@ def ops_for(shape):
 
 
 def run(ctx):
-    ctx.rule = "deviation placement: every op history up to the length bound x every position x {0,1,2,3 redundant updates (quick: 0,1,2; zero only where no later op reads update-cached weights)} and x every (node, public property) as the first read after the prefix; a case is non-trivial if it is a distinct (history, placement) that executed"
+    ctx.rule = "deviation placement: every op history up to the length bound x every position x {0,1,2,3 redundant updates (quick: 0,1,2; zero only where no later op reads update-cached weights)} and x every (node, public property) as the first read after the prefix; a read of every property at every position against an update there (quick: histories up to length 2); a case is non-trivial if it is a distinct (history, placement) that executed"
     ctx.assumptions += [
         "histories in which the explicit root.update(now) itself raises a documented guard are ill-formed states and are skipped",
         "properties enumerated by introspection of the node classes; structural views (members, securities, universe, full_name, fixed_income) are C19/C04",
@@ -378,7 +407,7 @@ def run(ctx):
             if kind == "cy":
                 hists = [h for h in hists if len(h) < lidem or lidem <= 2]
             nr = 0
-            for (sp, h, _k), (status, viols, n) in ctx.run(kind, MOD, "idem_case", [(spec, h, 2 if ctx.tier == "quick" else 3) for h in hists], chunksize=8):
+            for (sp, h, _k, _r), (status, viols, n) in ctx.run(kind, MOD, "idem_case", [(spec, h, 2 if ctx.tier == "quick" else 3, 2 if ctx.tier == "quick" else 99) for h in hists], chunksize=8):
                 ctx.add(states=1 if status == "ok" else 0, transitions=n, traces_validated_against_impl=n, evaluations=n)
                 nr += n
                 if n:
